@@ -18,6 +18,10 @@ CHECKS = {
    text="Every sequence of <=2 (quick) / <=3 (thorough) records over 15 valid and unacceptable record kinds; for each stream the unsegmented run, every 1- and 2-cut, 3-cuts (thorough), and byte-at-a-time delivery through the production decoder driven as DatagramDecoder::read drives it, compared with a one-shot reference decoder written from PROTOCOL.md 6.3/11.2; encoder cross product vs 6.4.",
    note="Trusted: the reference decoder/encoder. Acceptance bounds between the implementation's limit and 65507 payload bytes are not exercised. A decode that does not return in 20 s is reported as wedged.",
    tech="bounded-exhaustive enumeration of inputs x segmentations on the real decoder vs a reference decoder"),
+ "C11": dict(cat="exploration",
+   text="(a) every sequence of <=2/3 7.3 request records x every 1-,2-,3-cut + byte-at-a-time through the production stream decoder vs a one-shot decoder; (b) every echo request the endpoint would emit for all data word sequences (<=4/5 words over a carry-rich alphabet, optional odd byte) x id x seq: fields at their offsets and an Internet checksum that verifies under a 64-bit fold; (c) every reply / error type x code x quoted-request shape (matching, non-matching, IP options, extension headers, every truncation) through deserialize + responded_echo_request + the 7.4 encoder.",
+   note="ICMPv6 checksum is the kernel's (raw ICMPv6 sockets). Waiter histories on raw sockets (sub-check d) are reported separately in the evidence.",
+   tech="bounded-exhaustive enumeration of inputs x segmentations on the real codec/serialiser vs RFC 792/4443/1071 reference"),
 }
 NOT_YET = "check not built yet in this round (planned, see DESIGN.md section 3)"
 
